@@ -8,7 +8,8 @@ reply (model):  st=<ok|failed> err=<none|ctx|nilf|noadv|noid|mismatch> calls=<na
                 plug=<name:status IN EMITTED ORDER> plugset=<sorted> plugkeys=<hex names in emitted order> pk=<sorted package ids>
                 mut=0 (the objects the detectors returned are never written to)
                 | panic
-       (spec):  wf=<no detector cancels> cons=<findings consistent: no nil entry, advisories with IDs, equal IDs = equal advisories>
+       (spec):  consall=<ALL findings of the scan, extractor-emitted ones included, are consistent: the property's reading>
+                wf=<no detector but possibly the last cancels> cons=<findings consistent: no nil entry, advisories with IDs, equal IDs = equal advisories>
                 exf=<extractors emitted findings> sst=<ok|failed> sfind=<sorted findings> sdet=<detector statuses>
                 sidx=<index observation computed by filtering the extracted packages> scalls=<names>
                 sfkeys / splugkeys = the documented order: the sorted key sequences of the specified findings / statuses
@@ -239,7 +240,8 @@ def handle (line : String) : String :=
       let sidx := if ds.isEmpty then "-" else observe types names (specAll pkgs) (specOfType pkgs) (specSpecific pkgs)
       let exF := inp.fsFindings ++ inp.stFindings
       let cons := consistentB (specFindings ds px)
-      let nocancel := ds.all fun d => !d.cancels
+      let nocancel := noCancelB ds
+      let consall := consistentB (allFindings inp)
       let sfind := exF ++ (if cons then (specFindings ds px).filterMap id else [])
       -- the documented order, computed on KEYS only (a strict total order: the sorted sequence is unique)
       let sfkeys := isort optKeyLt (sfind.map sortKey)
@@ -251,7 +253,7 @@ def handle (line : String) : String :=
         s!"fkeys={joinWith "," (out.findings.map fun f => keyStr (sortKey f))} " ++
         s!"plug={joinWith "," (out.pluginStatus.map statusStr)} plugset={joinWith "," (sortStrs (out.pluginStatus.map statusStr))} " ++
         s!"plugkeys={joinWith "," (out.pluginStatus.map fun s => hexB (nameBytes s.name))} pk={idsStr out.packages true} mut=0"
-      model ++ s!" wf={boolStr nocancel} cons={boolStr cons} exf={boolStr (!exF.isEmpty)} " ++
+      model ++ s!" wf={boolStr nocancel} cons={boolStr cons} consall={boolStr consall} exf={boolStr (!exF.isEmpty)} " ++
         s!"sst={if cons then "ok" else "failed"} sfind={joinWith "," (sortStrs (sfind.map findingStr))} " ++
         s!"sfkeys={joinWith "," (sfkeys.map keyStr)} splugkeys={joinWith "," (splug.map hexB)} " ++
         s!"sdet={joinWith "," ((specStatus ds px).map statusStr)} sidx={sidx} scalls={joinWith "," (ds.map (·.name))}"
